@@ -249,8 +249,10 @@ def check_proofs(prop: str, thorough: bool = False) -> dict:
         res["log"] += f"\ndisallowed axioms: {disallowed}"
         res["failed_theorem"] = "axioms: " + ",".join(disallowed)
     if thorough and res["ok"]:
+        # the independent checker re-runs every vm_compute of the dependencies (the closed sweep of C10/C16 alone takes
+        # ~20 min on an idle machine, several times that when all thorough checks run side by side)
         rc, out = sh(["coqchk", "-silent", "-o"] + COQ_FLAGS[:9] + [f"AM.Props.{prop}"], cwd=COQ,
-                     timeout=3000)
+                     timeout=12000)
         res["coqchk_rc"] = rc
         res["coqchk_tail"] = out[-1500:]
         if rc != 0:
